@@ -139,7 +139,14 @@ where
         let compression_level = self.compression_level;
 
         rayon::spawn(move || {
+            #[cfg(noodles_verif)]
+            crate::verif::call("deflate:start", &src);
+
             let result = compress(&src, compression_level);
+
+            #[cfg(noodles_verif)]
+            crate::verif::call("deflate:end", &src);
+
             buffered_tx.send(result).ok();
         });
 
